@@ -244,6 +244,8 @@ def run_case(job):
     exp = _recs(t["exp"], mp)
     # outcomes the spec allows: record lists, None = an exception
     allowed = [(_recs(a["recs"], mp) if a["ok"] else None) for a in t["allowed"]]
+    # ... by the bytes based parser and the loaders built on it
+    allowed_bytes = [(_recs(a["recs"], mp) if a["ok"] else None) for a in t["allowed_bytes"]]
     data = dict(zip(names, seqs))
     out = []
     stats = {"loads": 0, "parses": 0, "texts": 0, "unsupported": 0}
@@ -295,7 +297,7 @@ def run_case(job):
                 if cmp == ".gz" and primary:
                     gz_path = path
                 got = _call(lambda: _project_coll(load(path, moltype=mtname, **lkw) if explicit is None else load(path, moltype=mtname, format=explicit, **lkw)))
-                d = diff_kind(got, exp, allowed)
+                d = diff_kind(got, exp, allowed_bytes)
                 if not d and (isinstance(got, Exception) or got != exp):
                     stats["open_outcome_alternative"] = stats.get("open_outcome_alternative", 0) + 1
             stats["loads"] += 1
@@ -338,14 +340,14 @@ def run_case(job):
         kind, make, load, lkw = makers[0]
         got = _call(lambda: _project_coll(load(crlf_path, moltype=mtname, **lkw)))
         stats["loads"] += 1
-        d = diff_kind(got, exp, allowed)
+        d = diff_kind(got, exp, allowed_bytes)
         if d:
             out.append(("fail", f"{fmt}:roundtrip:{cls}:{d}", f"load {kind} from the written text with CRLF line ends",
                         {**base, "kind": kind, "file": crlf_path.name, "observed": _show(got), "step": "load"}))
         for vname, group, mv, thunk in parser_variants(fmt, plain_path, gz_path, crlf_path, text, tier):
             got = _call(thunk)
             stats["parses"] += 1
-            d = diff_kind(got, exp, allowed)
+            d = diff_kind(got, exp, allowed_bytes if group == "bytes" else allowed)
             if not d and (isinstance(got, Exception) or got != exp):
                 stats["open_outcome_alternative"] = stats.get("open_outcome_alternative", 0) + 1
             if d:
@@ -367,7 +369,7 @@ def run_case(job):
         wide = lambda sq: "".join(ch * DEFAULT_WIDTHS[j % 3] for j, ch in enumerate(sq))
         wrecs = lambda recs: recs if recs is None else [(n, wide(sq)) for n, sq in recs]
         wdata = {n: wide(sq) for n, sq in zip(names, seqs)}
-        wexp, wallowed = wrecs(exp), [wrecs(a) for a in allowed]
+        wexp, wallowed = wrecs(exp), [wrecs(a) for a in allowed_bytes]
         obj = _call(lambda: cogent3.make_unaligned_seqs(wdata, moltype=mtname))
         if not isinstance(obj, Exception):
             chosen = list(COMPRESSIONS) if tier == "thorough" else [COMPRESSIONS[idx % len(COMPRESSIONS)]]
@@ -390,7 +392,7 @@ def run_case(job):
             return [(sq.name, str(sq))]
         got = _call(first_seq)
         stats["loads"] += 1
-        d = diff_kind(got, exp[:1], [a if a is None else a[:1] for a in allowed])
+        d = diff_kind(got, exp[:1], [a if a is None else a[:1] for a in allowed_bytes])
         if d:
             out.append(("fail", f"{fmt}:roundtrip:{cls}:{d}", "write + load_seq (first record of the file)", {**base, "kind": "load_seq", "observed": _show(got), "step": "load"}))
     if tier == "thorough" and fmt != "json" and plain_path is not None and text is not None:
